@@ -292,10 +292,10 @@ impl<T> std::ops::DerefMut for MutexGuard<'_, T> {
 impl<T> Drop for MutexGuard<'_, T> {
     fn drop(&mut self) {
         drop(self.guard.take());
-        if !std::thread::panicking() {
-            if let Some(h) = hooks() {
-                h.swap_point(SwapPoint::Unlocked, self.id);
-            }
+        // Also reported while unwinding (the lock is released and poisoned then); the simulator
+        // must not switch context in that case and checks `std::thread::panicking()` itself.
+        if let Some(h) = hooks() {
+            h.swap_point(SwapPoint::Unlocked, self.id);
         }
     }
 }
